@@ -20,6 +20,9 @@ pub struct Case {
     pub content_seed: u64,
     /// if Some, the content seed is advanced until the info-hash contains this byte
     pub want_byte: Option<u8>,
+    /// where the wanted byte must sit: 0 = anywhere, 1 = first byte, 2 = last byte
+    #[serde(default)]
+    pub want_pos: u8,
     /// wire sub only: the tracker fails this many announces (HTTP 503) before it answers; every request is checked
     #[serde(default)]
     pub fail_first: u8,
@@ -46,8 +49,9 @@ fn strategy(wire: bool) -> BoxedStrategy<Case> {
         any::<u64>(),
         prop_oneof![1 => Just(None), 2 => prop::sample::select(SPECIAL.to_vec()).prop_map(Some), 1 => any::<u8>().prop_map(Some)],
         if wire { prop_oneof![9 => Just(0u8), 1 => 1u8..=2].boxed() } else { Just(0u8).boxed() },
+        prop_oneof![2 => Just(0u8), 1 => Just(1u8), 1 => Just(2u8)],
     )
-        .prop_map(|(host, port, path, query, total_len, own_id, content_seed, want_byte, fail_first)| Case { host, port, path, query, total_len, own_id, content_seed, want_byte, fail_first })
+        .prop_map(|(host, port, path, query, total_len, own_id, content_seed, want_byte, fail_first, want_pos)| Case { host, port, path, query, total_len, own_id, content_seed, want_byte, fail_first, want_pos })
         .boxed()
 }
 
@@ -76,7 +80,12 @@ pub fn build_metainfo(c: &Case, announce: &str) -> (rdest::Metainfo, [u8; 20]) {
         ]);
         let hash = sha1(&rb::encode(&info));
         if let Some(b) = c.want_byte {
-            if !hash.contains(&b) {
+            let ok = match c.want_pos {
+                1 => hash[0] == b,
+                2 => hash[19] == b,
+                _ => hash.contains(&b),
+            };
+            if !ok {
                 seed = seed.wrapping_add(1);
                 continue;
             }
@@ -185,6 +194,8 @@ fn classify(c: &Case, hash: &[u8; 20], o: &mut Outcome) {
         }
     }
     o.class_if(hash.iter().any(|b| *b >= 0x80), "hash-non-utf8");
+    o.class_if(SPECIAL.contains(&hash[19]), "hash-ends-with-special-byte");
+    o.class_if(SPECIAL.contains(&hash[0]), "hash-starts-with-special-byte");
     o.class_if(c.total_len >= 1 << 32, "length>=2^32");
     let own = ["peer_id", "port", "left", "event", "info_hash", "uploaded", "downloaded", "numwant"];
     o.class_if(
